@@ -15,12 +15,18 @@ pub mod serde_json {
     pub mod error { pub struct Error { pub x: u8 } }
     pub use error::Error;
 }
-pub mod tokio {
-    pub mod task { pub struct JoinError { pub x: u8 } }
-}
 pub mod server {
     use vstd::prelude::*;
+    use super::*;
     pub struct ServerError { pub x: u8 }
+//!type src/core/server.rs LogFilterInput
+pub(crate) struct LogFilterInput {
+    pub(crate) commands: HashSet<String>,
+    pub(crate) targets: HashSet<String>,
+    pub(crate) include_stdout: bool,
+    pub(crate) include_stderr: bool,
+}
+//!end
 //!type src/core/server.rs LogServerConfig
 pub(crate) struct LogServerConfig {
     pub(crate) host: String,
@@ -104,7 +110,7 @@ pub mod path {
 
 // ---------------- configuration data types (extracted) ----------------
 //!type src/core/mod.rs ChangeProviderKind
-pub(crate) enum ChangeProviderKind {
+pub enum ChangeProviderKind {
     Git,
 }
 //!end
@@ -114,7 +120,7 @@ pub(crate) struct ChangeProvider {
 }
 //!end
 //!type src/core/mod.rs AlgorithmKind
-pub(crate) enum AlgorithmKind {
+pub enum AlgorithmKind {
     Sha256,
 }
 //!end
@@ -174,3 +180,133 @@ pub(crate) struct ConfigLockfile {
     pub(crate) checksum: String,
 }
 //!end
+
+// ---------------- the ghost world threaded by R10 ----------------
+pub enum Ev {
+    Start { c: int, g: int, t: int },
+    Exit { c: int, g: int, t: int },
+}
+pub struct World {
+    // log plumbing
+    pub ghost sink: Map<(int, int), Seq<u8>>,   // bytes handed to the encoder (channel, encoder_index) of a compressor
+    pub ghost cc_errs: nat,                      // number of compressor-channel sends that have failed so far
+    pub ghost tail: Seq<u8>,                     // bytes written to the `log tail` connection
+    pub ghost tail_locks: nat,                   // number of acquisitions of the connection mutex
+    // processes (unit runexec)
+    pub ghost trace: Seq<Ev>,
+    pub ghost cur_c: int, pub ghost cur_g: int,
+    pub ghost grp_begin: int, pub ghost sched_end: int,
+    pub ghost fail_point: int,
+    // file system as seen by `run` (unit tracking): path -> content; every effect is a crash point
+    pub ghost fs: Map<Seq<char>, Seq<u8>>,
+    pub ghost ptr: Seq<char>,
+    pub ghost last: Option<Seq<u8>>,
+    // lock (unit cli)
+    pub ghost lock_held: bool,
+}
+pub open spec fn flat(b: Seq<Vec<u8>>) -> Seq<u8> decreases b.len() { if b.len() == 0 { Seq::empty() } else { flat(b.drop_last()) + b.last()@ } }
+pub proof fn lemma_flat_push(b: Seq<Vec<u8>>, x: Vec<u8>) ensures flat(b.push(x)) == flat(b) + x@ { assert(b.push(x).drop_last() =~= b); }
+
+// the bytes a read appended to its buffer
+pub open spec fn read_chunk(before: Seq<u8>, after: Seq<u8>) -> Seq<u8> { after.subrange(before.len() as int, after.len() as int) }
+// R11: tokio::select! picks any ready branch: the choice is unconstrained
+#[verifier::external_body] pub fn select_choice(n: usize) -> (r: usize) ensures r < n { unimplemented!() }
+// R11: tokio::try_join!(a, b) on two evaluated results (a real, verified function)
+pub fn try_join2<A, B, E>(a: Result<A, E>, b: Result<B, E>) -> (r: Result<(A, B), E>)
+    ensures r is Ok <==> (a is Ok && b is Ok), r matches Ok(p) ==> a == Ok::<A, E>(p.0) && b == Ok::<B, E>(p.1),
+{
+    match a { Ok(x) => match b { Ok(y) => Ok((x, y)), Err(e) => Err(e) }, Err(e) => Err(e) }
+}
+pub mod mem {
+    use vstd::prelude::*;
+    // std::mem::take on a byte vector (R17 re-roots the path): returns the content, leaves it empty
+    #[verifier::external_body] pub fn take(v: &mut Vec<u8>) -> (r: Vec<u8>) ensures r@ == old(v)@, final(v)@.len() == 0 { unimplemented!() }
+}
+pub mod sync { pub use std::sync::Arc; }
+pub mod tokio_util { pub mod sync {
+    use vstd::prelude::*;
+    pub struct CancellationToken { pub x: u8 }
+    impl CancellationToken { #[verifier::external_body] pub async fn cancelled(&self) { unimplemented!() } }
+} }
+// what one message does to the compressor's encoders (defined by the unit that owns the message type)
+pub trait ChanMsg { spec fn apply(&self, chan: int, sink: Map<(int, int), Seq<u8>>) -> Map<(int, int), Seq<u8>>; }
+pub mod tokio {
+    use vstd::prelude::*;
+    use super::*;
+    pub mod task { pub struct JoinError { pub x: u8 } }
+    pub mod time {
+        use vstd::prelude::*;
+        pub struct Duration { pub x: u8 }
+        impl Duration { #[verifier::external_body] pub fn from_millis(ms: u64) -> Duration { unimplemented!() } }
+        pub struct Interval { pub x: u8 }
+        impl Interval { #[verifier::external_body] pub async fn tick(&mut self) { unimplemented!() } }
+        #[verifier::external_body] pub fn interval(d: Duration) -> Interval { unimplemented!() }
+    }
+    pub mod io {
+        use vstd::prelude::*;
+        use super::super::*;
+        pub trait AsyncRead { }
+        // a buffered byte stream: `consumed` is what reads have taken so far, `rest` what is still to come
+        pub struct BufReader<R> { pub ghost consumed: Seq<u8>, pub ghost rest: Seq<u8>, pub r: R }
+        impl<R> BufReader<R> {
+            // AsyncBufReadExt::read_until: a completed read appends the bytes it consumed to buf; Ok(0) only at end of stream
+            #[verifier::external_body]
+            pub async fn read_until(&mut self, d: u8, buf: &mut Vec<u8>, Tracked(w): Tracked<&mut World>) -> (res: Result<usize, std::io::Error>)
+                ensures *final(w) == *old(w),
+                    final(buf)@ == old(buf)@ + read_chunk(old(buf)@, final(buf)@),
+                    final(self).consumed == old(self).consumed + read_chunk(old(buf)@, final(buf)@),
+                    old(self).rest == read_chunk(old(buf)@, final(buf)@) + final(self).rest,
+                    res matches Ok(k) ==> read_chunk(old(buf)@, final(buf)@).len() == k && (k == 0 ==> old(self).rest.len() == 0),
+            { unimplemented!() }
+            // the same future polled and then dropped by select!: any prefix may already have been moved into buf (tokio docs: not cancel-safe w.r.t. buf)
+            #[verifier::external_body]
+            pub fn read_until_dropped(&mut self, d: u8, buf: &mut Vec<u8>, Tracked(w): Tracked<&mut World>)
+                ensures *final(w) == *old(w),
+                    final(buf)@ == old(buf)@ + read_chunk(old(buf)@, final(buf)@),
+                    final(self).consumed == old(self).consumed + read_chunk(old(buf)@, final(buf)@),
+                    old(self).rest == read_chunk(old(buf)@, final(buf)@) + final(self).rest,
+            { unimplemented!() }
+        }
+    }
+    pub mod sync {
+        use vstd::prelude::*;
+        use super::super::*;
+        pub mod mpsc {
+            use vstd::prelude::*;
+            use super::super::super::*;
+            pub struct SendError<T> { pub v: T }
+            pub struct Sender<T> { pub ghost chan: int, pub _t: ::std::marker::PhantomData<T> }
+            impl<T: ChanMsg> Sender<T> {
+                // Ok iff the receiver is alive (which may change at any time: the result is otherwise unconstrained);
+                // a delivered message has the effect `apply` on the encoders; a failed send has none and is counted
+                #[verifier::external_body]
+                pub async fn send(&self, v: T, Tracked(w): Tracked<&mut World>) -> (r: Result<(), SendError<T>>)
+                    ensures
+                        r is Ok ==> final(w).sink == v.apply(self.chan, old(w).sink) && final(w).cc_errs == old(w).cc_errs,
+                        r is Err ==> final(w).sink == old(w).sink && final(w).cc_errs == old(w).cc_errs + 1,
+                        final(w).tail == old(w).tail, final(w).tail_locks == old(w).tail_locks, final(w).trace == old(w).trace, final(w).fs == old(w).fs,
+                { unimplemented!() }
+            }
+            impl<T> Clone for Sender<T> { #[verifier::external_body] fn clone(&self) -> (r: Self) ensures r.chan == self.chan { unimplemented!() } }
+        }
+        // tokio::sync::Mutex around the log tail connection
+        pub struct Mutex<T> { pub t: T }
+        pub struct MutexGuard<T> { pub t: T }
+        impl<T> Mutex<T> {
+            #[verifier::external_body] pub async fn lock(&self, Tracked(w): Tracked<&mut World>) -> (g: MutexGuard<T>)
+                ensures final(w).tail_locks == old(w).tail_locks + 1, final(w).tail == old(w).tail, final(w).sink == old(w).sink, final(w).cc_errs == old(w).cc_errs { unimplemented!() }
+        }
+    }
+    pub mod net {
+        use vstd::prelude::*;
+        pub struct TcpStream { pub x: u8 }
+    }
+}
+impl<T> From<tokio::sync::mpsc::SendError<T>> for MonorailError { #[verifier::external_body] fn from(error: tokio::sync::mpsc::SendError<T>) -> (r: Self) ensures r is ChannelSend { unimplemented!() } }
+// AsyncWriteExt::write_all on the guarded connection: all bytes or an error after an arbitrary prefix
+impl tokio::sync::MutexGuard<tokio::net::TcpStream> {
+    #[verifier::external_body] pub async fn write_all(&mut self, b: &[u8], Tracked(w): Tracked<&mut World>) -> (r: Result<(), std::io::Error>)
+        ensures r is Ok ==> final(w).tail == old(w).tail + b@,
+            final(w).tail_locks == old(w).tail_locks, final(w).sink == old(w).sink, final(w).cc_errs == old(w).cc_errs,
+    { unimplemented!() }
+}
